@@ -181,6 +181,27 @@ def route(p0: int, p1: int, p2: int, idx: int, v0: int, d0: int, d1: int) -> boo
         return fail('exception while relaying the reply', exc=repr(e))
     if cat(h.work.buffer) != reply:
         return fail('upstream reply not relayed unmodified', got=repr(cat(h.work.buffer)))
+    follow = CFG.get('follow')
+    if follow:
+        # a later request on the same connection that matches no route / a literal route must not reach any upstream
+        run(h.handle_events([], [cs.fd]))
+        before = len(envkit.pending(h.plugin.route.upstream)) + len(us.out)
+        nconn = len(env.connects)
+        p2 = b'/dyn/lit' if follow == 'lit' else b'/nothing-here'
+        cs.inq.append(b'GET ' + p2 + b' HTTP/1.1\r\nHost: front.example\r\n\r\n')
+        try:
+            td = run(h.handle_events([cs.fd], []))
+        except Exception as e:
+            return fail('exception on the follow-up request', exc=repr(e))
+        if len(env.connects) != nconn:
+            return fail('follow-up request that matches no upstream route caused an outbound connection', connects=repr(env.connects[nconn:]))
+        up = h.plugin.route.upstream
+        after = (len(envkit.pending(up)) if up is not None else 0) + len(us.out)
+        if after != before:
+            return fail('follow-up request that matches no upstream route was forwarded to the previous upstream')
+        out2 = cat(h.work.buffer)
+        if follow == 'lit' and out2 != b'HTTP/1.1 200 OK\r\nContent-Length: 3\r\n\r\nlit':
+            return fail('literal route response altered on a follow-up request', out=repr(out2[:80]))
     return ok()
 
 
@@ -216,6 +237,10 @@ def obligations(tier):
                 obs.append({'name': 'route.%s.%s+%d.%s.b%d' % ('rewrite' if rewrite else 'keep', prefix.replace('/', '_'), nsym,
                                                                METHODS[mi].decode(), blen), 'fn': 'route',
                             'cfg': {'rewrite': rewrite, 'prefix': prefix, 'nsym': nsym, 'method': mi, 'blen': blen}, 'timeout': T})
+    for follow in ('lit', 'none'):
+        for prefix in ('/get', '/multi', '/dyn/url'):
+            obs.append({'name': 'route.follow_%s.after%s' % (follow, prefix.replace('/', '_')), 'fn': 'route',
+                        'cfg': {'rewrite': False, 'prefix': prefix, 'nsym': 0, 'method': 0, 'blen': 0, 'follow': follow}, 'timeout': T})
     for mi in (2, 3):
         obs.append({'name': 'route.keep._get+0.%s.b1' % METHODS[mi].decode(), 'fn': 'route',
                     'cfg': {'rewrite': False, 'prefix': '/get', 'nsym': 0, 'method': mi, 'blen': 1}, 'timeout': T})
@@ -228,7 +253,7 @@ META = {
                  'overlapping shadowed route, https with port, dynamic returning a Url, dynamic returning a literal response); upstream choice '
                  'index symbolic; request path = 14 concrete prefixes + 0..2 symbolic visible characters (so it matches none/one/several routes); '
                  'methods GET/POST/PUT/DELETE; one header with a symbolic value byte; body 0..2 symbolic bytes; --rewrite-host-header on/off; '
-                 'the upstream reply (2 symbolic bytes) relayed back',
+                 'the upstream reply (2 symbolic bytes) relayed back; a follow-up request on the same connection that matches no route / a literal route',
         'thorough': 'up to 3 symbolic path characters on more prefixes',
     },
     'outside': 'TLS handshake with the upstream (wrap() replaced by a recorder), regexes other than the table\'s, dynamic routes returning a '
